@@ -87,6 +87,8 @@ def build(desc: dict) -> CombDesign:
         return Cat(*[Value.cast(e) for e in entries])
 
     d, dsig = _entries(n, ew, style, "d")
+    if desc.get("cf") == "tuple":  # the data arguments are `Sequence`s: tuples as well as lists
+        d = tuple(d)
     if g == "vec":
         (ph,), phsig = _entries(1, ew, style, "ph")
         outs = {
@@ -102,6 +104,8 @@ def build(desc: dict) -> CombDesign:
         return des
     if g == "gvec":
         e, esig = _entries(n, ew, style, "e")
+        if desc.get("cf") == "tuple":
+            e = tuple(e)
         outs = {
             "gvsr": (pack("gvsr", S.generic_shift_vec_right(d, e, off)), None),
             "gvsl": (pack("gvsl", S.generic_shift_vec_left(d, e, off)), None),
@@ -295,7 +299,7 @@ def generic_ops(w: int, triples) -> list[str]:
 
 
 def vec_desc(n: int, ew: int, style: str, g: str = "vec") -> dict:
-    return {"g": g, "n": n, "ew": ew, "ow": (2 * n + 3).bit_length(), "style": style}
+    return {"g": g, "n": n, "ew": ew, "ow": (2 * n + 3).bit_length(), "style": style, "cf": "tuple" if (n + ew) % 2 else "list"}
 
 
 def vec_ops(n: int, ew: int, datas, offs_in, offs_far, phs) -> list[str]:
